@@ -414,4 +414,44 @@ def pgIndex (xs : List α) (i : Int) : Option α :=
 def pgSlice (xs : List α) (a b : Option Int) : List α :=
   pgArraySlice xs (a.map (fun v => indexConst true true v xs.length)) (b.map (fun v => indexConst true false v xs.length))
 
+/-! ### parameters inside a path: `build_json_path` with `has_params`, `make_composite_param`, `builder.keys` -/
+
+/-- one element of a JSON path in the SQL AST: a query parameter (identified by its paramkey) or a constant key / index -/
+inductive PathItem where
+  | param (id : Nat)
+  | const (k : Key)
+  deriving DecidableEq, Repr, Inhabited
+
+/-- one component of the composite parameter's key: `item.paramkey` for a Param, `item.value` for a constant int / str -/
+inductive KeyPart where
+  | p (id : Nat)
+  | i (v : Int)
+  | s (v : Text)
+  deriving DecidableEq, Repr, Inhabited
+
+def keyPart : PathItem → KeyPart
+  | .param id => .p id
+  | .const (.idx v) => .i v
+  | .const (.name v) => .s v
+
+/-- the `paramkey` tuple `build_json_path` computes for a path with parameters (no wildcards on SQLite) -/
+def paramKey (items : List PathItem) : List KeyPart := items.map keyPart
+
+/-- `builder.keys`: composite parameters already made in this statement, by key -/
+abbrev Registry := List (List KeyPart × List PathItem)
+
+/-- `make_param(CompositeParam, paramkey, items, eval_json_path)`: an existing parameter with the same key is reused -/
+def makeComposite (reg : Registry) (items : List PathItem) : List PathItem × Registry :=
+  match reg.lookup (paramKey items) with
+  | some its => (its, reg)
+  | none => (items, (paramKey items, items) :: reg)
+
+/-- `CompositeParam.eval(values)`: parameters replaced by their values, then `eval_json_path` -/
+def resolveItem (env : Nat → Key) : PathItem → Key
+  | .param id => env id
+  | .const k => k
+
+def evalComposite (W : Char → Bool) (env : Nat → Key) (items : List PathItem) : Text :=
+  evalJsonPath W (items.map (resolveItem env))
+
 end PonyVerif.Model.JsonOps
